@@ -74,6 +74,14 @@ var (
 	wdBudgetNs atomic.Int64
 )
 
+// PauseWatchdog / ResumeWatchdog let an engine exclude time it spends waiting for its own child
+// processes (reference computations) from the per-run budget: only time spent in the code under
+// test counts as "no progress".
+func PauseWatchdog() { wdRunStart.Store(0) }
+func ResumeWatchdog() {
+	wdRunStart.Store(time.Now().UnixNano())
+}
+
 func writeJSONAtomic(path string, v any) error {
 	b, err := json.Marshal(v)
 	if err != nil {
